@@ -1,5 +1,6 @@
 import RedunModel.Proto
 import RedunModel.Model.SchedCore
+import RedunModel.Model.ExprMemo
 open RedunModel RedunModel.SchedCore
 
 /- request (one line):
@@ -8,6 +9,8 @@ open RedunModel RedunModel.SchedCore
    choice ::= p | c<specId>            -- pop the queue head | the in-flight job created for spec <specId> reports
    reply: one summary per choice, joined by " | ":
      u=<r:v,..>;w=<spec,..>;f=<sorted spec,..>;q=<E:spec,..>;fin=<T|F>
+   memo op*      op ::= (e <parent> <hash>) | (f <parent>)     -- `_evaluate_apply` request | `_pending_expr.pop(parent)`
+     reply: one `<evaluation id>:<T|F started>` per e, joined by " "
    `bad-op` / `bad-value` otherwise.  A choice that is not enabled yields `stuck` at that position. -/
 
 def natA (s : Sexp) : Option Nat := match s with | .atom a => natOfAtom a | _ => none
@@ -69,8 +72,18 @@ def runChoices (p : Prog) (res : List Nat) : S → List Sexp → List String →
       | _ => (("bad-value") :: acc).reverse
     | _ => (("bad-value") :: acc).reverse
 
+def parseMemoOp : Sexp → Option ExprMemo.Op
+  | .list [.atom "e", a, b] => do pure (.eval (← natA a) (← natA b))
+  | .list [.atom "f", a] => do pure (.finalize (← natA a))
+  | _ => none
+
 def step (_ : Unit) (line : String) : Unit × String :=
   match Sexp.parseLine line with
+  | some (.atom "memo" :: ops) =>
+    match ops.mapM parseMemoOp with
+    | some ops =>
+      ((), " ".intercalate ((ExprMemo.run {} ops).map fun a => toString a.out.id ++ ":" ++ (if a.out.started then "T" else "F")))
+    | none => ((), "bad-value")
   | some [.atom "run", dr, .list (.atom "lim" :: lims), .list (.atom "specs" :: specs),
           .list (.atom "res" :: res), .list (.atom "ch" :: chs)] =>
     match boolA dr, lims.mapM (fun | .list [r, n] => do pure ((← natA r), (← natA n)) | _ => none),
